@@ -229,6 +229,22 @@ func (x *Exec) itoa(v *Term, signed bool) *StrVal {
 		}
 		return x.str(fmt.Sprintf("%d", v.K))
 	}
+	// small ranges: a table (no division reaches the solver)
+	if (!signed || signedSafe(v)) && v.Hi-v.Lo <= 300 {
+		var r Value
+		for k := v.Hi; ; k-- {
+			sv := x.str(fmt.Sprintf("%d", k))
+			if r == nil {
+				r = sv
+			} else {
+				r = x.ite(tb.Eq(v, tb.BV(v.W, k)), sv, r)
+			}
+			if k == v.Lo {
+				break
+			}
+		}
+		return r.(*StrVal)
+	}
 	v64 := v
 	if v.W < 64 {
 		if signed {
